@@ -29,3 +29,94 @@ package types
 //@   ensures exact: (err == nil) == (-4 <= exponent && exponent <= 14 && inI64(i * pow10(exponent+4)))
 //@   ensures value: err == nil ==> d.value == i * pow10(exponent+4)
 //@   ensures class: err != nil ==> errIs(err, errDecimal)
+
+//@ func NewDecimalFromInt
+//@   props C12
+//@   arith checked
+//@   results d, err
+//@   ensures (err == nil) == inI64(i * 10000)
+//@   ensures err == nil ==> d.value == i * 10000
+
+// The arithmetic of ParseDecimal after the two strconv calls (whose results
+// are the uninterpreted values pInt / pUint of the two substrings).
+//@ spec func dot(s string) int
+//@ func ParseDecimal
+//@   props C12 C10
+//@   arith checked
+//@   safety
+//@   results d, err
+//@   ensures value: err == nil ==> (exists k int :: 0 <= k && k < len(s) && s[k] == '.' && len(s) - k - 1 <= 4 && len(s) - k - 1 >= 1 &&
+//@           d.value == pInt(s[0:k]) * 10000 + (s[0] == '-' ? -1 : 1) * pUint(s[k+1:len(s)], 16) * pow10(4 - (len(s) - k - 1)))
+//@   ensures class: err != nil ==> errIs(err, errDecimal)
+
+//@ func (Decimal) String
+//@   props C12 C10
+//@   safety
+//@   wraps "-integer"
+//@   loop 1
+//@     invariant 0 <= right && right <= len(res)
+
+//@ func (Decimal) Compare
+//@   props C12
+//@   results r
+//@   ensures r == (d.value < other.value ? -1 : (d.value > other.value ? 1 : 0))
+
+// --------------------------------------------------------------- duration.go
+
+//@ func NewDurationFromMillis
+//@   props C12
+//@   results d
+//@   ensures d.value == ms
+
+//@ func ParseDuration
+//@   props C12 C10
+//@   arith checked
+//@   safety
+//@   results d, err
+//@   loop 1
+//@     invariant 0 <= i && i <= len(s) && 0 <= unitI && unitI <= 5
+//@     invariant 0 <= total && 0 <= value
+//@     invariant negative == 1 || negative == -1
+//@     invariant (negative == -1) == (s[0] == '-')
+//@   loop 1.1
+//@     invariant 0 <= unitI && unitI <= 5
+//@   ensures range: err == nil ==> -9223372036854775807 <= d.value && d.value <= 9223372036854775807
+//@   ensures sign: err == nil ==> (s[0] == '-' ? d.value <= 0 : d.value >= 0)
+//@   ensures class: err != nil ==> errIs(err, errDuration)
+
+//@ func (Duration) String
+//@   props C12 C10
+//@   arith checked
+//@   safety
+
+//@ func (Duration) Duration
+//@   props C12
+//@   arith checked
+//@   results r, err
+//@   ensures (err == nil) == inI64(d.value * 1000000)
+//@   ensures err == nil ==> r == d.value * 1000000
+
+//@ func (Duration) ToDays
+//@   props C12 C01
+//@   arith checked
+//@   results r
+//@   ensures r == tdiv(d.value, 86400000)
+//@ func (Duration) ToHours
+//@   props C12 C01
+//@   arith checked
+//@   results r
+//@   ensures r == tdiv(d.value, 3600000)
+//@ func (Duration) ToMinutes
+//@   props C12 C01
+//@   arith checked
+//@   results r
+//@   ensures r == tdiv(d.value, 60000)
+//@ func (Duration) ToSeconds
+//@   props C12 C01
+//@   arith checked
+//@   results r
+//@   ensures r == tdiv(d.value, 1000)
+//@ func (Duration) ToMilliseconds
+//@   props C12 C01
+//@   results r
+//@   ensures r == d.value
